@@ -91,14 +91,19 @@ func canon(c uint32) uint32 {
 }
 
 // value builds the integer denoted by c with multiplication only (the code under test shifts).
-func value(c uint32) *big.Int {
+func value(c uint32) *big.Int { return valueInto(new(big.Int), new(big.Int), c) }
+
+// valueInto is value with caller-supplied scratch space (the exhaustive loop allocates nothing for the oracle).
+func valueInto(z, scratch *big.Int, c uint32) *big.Int {
 	neg, m, k := decode(c)
-	v := new(big.Int).Mul(big.NewInt(int64(m)), pow256[k])
+	z.Mul(scratch.SetUint64(uint64(m)), pow256[k])
 	if neg {
-		v.Neg(v)
+		z.Neg(z)
 	}
-	return v
+	return z
 }
+
+var scratchA, scratchB big.Int
 
 type chain struct { // last positive canonical compact seen, for the ordering check
 	c      uint32
@@ -117,7 +122,7 @@ func checkCompact(t *testing.T, c uint32, full bool, ch *chain, cnt *counters) {
 	cnt.n++
 	want := canon(c)
 	v := difficulty.CompactToBig(c)
-	if exp := value(c); v.Cmp(exp) != 0 {
+	if exp := valueInto(&scratchA, &scratchB, c); v.Cmp(exp) != 0 {
 		fail("CompactToBig = %s, the format denotes %s", v.Text(16), exp.Text(16))
 	}
 	got := difficulty.BigToCompact(v)
@@ -223,38 +228,45 @@ func noteCompact(c uint32) {
 	}
 }
 
-// TestGenCompacts: quick = stratified sample over every exponent; thorough = this shard's contiguous slice
-// of all 2^32 compacts (VERIF_SHARD of VERIF_SHARDS), exhaustive=true only once the slice is finished.
+// TestGenCompacts: quick = stratified sample over every exponent; thorough = this shard's exponent rows of
+// all 2^32 compacts (VERIF_SHARD of VERIF_SHARDS), exhaustive=true only once all of them are finished.
 func TestGenCompacts(t *testing.T) {
 	ran = true
 	var cnt counters
 	defer cnt.publish()
 	if lib.Thorough() {
-		shard, shards := uint64(envInt("VERIF_SHARD", 0)), uint64(envInt("VERIF_SHARDS", 1))
-		if shards == 0 || shard >= shards {
+		shard, shards := envInt("VERIF_SHARD", 0), envInt("VERIF_SHARDS", 1)
+		if shards < 1 || shard < 0 || shard >= shards {
 			lib.Inconclusive("bad shard %d/%d", shard, shards)
 		}
-		lo, hi := (shard<<32)/shards, ((shard+1)<<32)/shards // [lo,hi) partitions [0,2^32) over the shards
-		var ch chain
-		// the ordering chain continues across shard borders: start from the last positive canonical compact below lo
-		for p := lo; p > 0; {
-			p--
-			if c := uint32(p); canon(c) == c && c&0x00800000 == 0 && c != 0 {
-				ch = chain{c: c, target: difficulty.CompactToBig(c), work: difficulty.CalcWork(c)}
-				break
+		// The 2^32 compacts are split by exponent row: this process owns the rows e with e % shards == shard
+		// (interleaved, because the cost per value grows with the exponent). Every row is visited in
+		// increasing order; its ordering chain starts from the last positive canonical compact below the row.
+		rows := 0
+		for e := shard; e < 256; e += shards {
+			lo := uint64(e) << 24
+			var ch chain
+			for p := lo; p > 0; {
+				p--
+				if c := uint32(p); canon(c) == c && c&0x00800000 == 0 && c != 0 {
+					ch = chain{c: c, target: difficulty.CompactToBig(c), work: difficulty.CalcWork(c)}
+					break
+				}
 			}
-		}
-		for p := lo; p < hi; p++ {
-			c := uint32(p)
-			checkCompact(t, c, false, &ch, &cnt)
-			if c&0xffff == 0x8001 { // 1-in-65536 systematic subsample carries the distinct fingerprints (memory bound)
-				noteCompact(c)
+			for p := lo; p < lo+1<<24; p++ {
+				c := uint32(p)
+				checkCompact(t, c, false, &ch, &cnt)
+				if c&0xffff == 0x8001 { // 1-in-65536 systematic subsample carries the distinct fingerprints (memory bound)
+					noteCompact(c)
+				}
 			}
+			rows++
 		}
-		if uint64(cnt.n) != hi-lo {
-			t.Fatalf("harness: visited %d of %d", cnt.n, hi-lo)
+		if cnt.n != rows<<24 {
+			t.Fatalf("harness: visited %d values in %d rows", cnt.n, rows)
 		}
 		lib.Note("compacts_enumerated", cnt.n)
+		lib.Note("exponent_rows_enumerated", rows)
 		lib.SetExhaustive(true) // the driver ANDs this over all shard processes; a missing shard is reported inconclusive
 		return
 	}
